@@ -6,26 +6,26 @@ sys.path.insert(0, HERE)
 from analysis import props
 
 TECH = {
- "C01": "MIR typestate dataflow (len,rows,cols) at unwind/leak/return points + {v==0} predicate abstraction + visibility/signature scan",
- "C02": "dominator-based guard analysis (unit, strictness, domination of uses) + unchecked-arithmetic rule + ROW/COL unit inference",
- "C03": "{v==0} predicate abstraction with computed helper summaries + unit inference over MIR",
- "C04": "visibility / trait-impl table scan + permutation-primitive call rule + take-typestate",
- "C05": "hidden-window typestate for raw moves + who-may-call rule for duplicating primitives + raw-pointer comparison lint",
- "C06": "guard dominance + predicate abstraction + unwind-point typestate on insert_row/insert_col",
- "C07": "guard dominance + delegation check + leak/unwind typestate on remove_row/remove_col/DrainCol::drop",
- "C08": "moved-out typestate (mem::take) + checked-arithmetic rule on the row cursors",
- "C09": "moved-out typestate + checked-arithmetic rule on the column cursors + guard dominance for col()",
- "C10": "direction rule over resolved inner-iterator calls of FlattenExact",
- "C11": "MIR unwind-edge typestate dataflow with restorer-drop summaries and drop-flag tracking",
- "C12": "leak typestate at return of drain-producing functions + tail-drain value-graph rule",
- "C13": "guard dominance incl. ordered-swap and nth().unwrap() idioms + unit inference + permutation-primitive rule",
- "C14": "guard dominance + unguarded-arithmetic rule + unit inference on copy.rs",
- "C15": "guard dominance + unit inference + permutation-primitive rule on translate.rs",
- "C16": "delegation check over resolved callees + sort skeleton rules (stability, argument order, all-rows, dominance of writes)",
- "C17": "delegation check over resolved callees + unit inference at call arguments + sort skeleton rules",
- "C18": "writer/reader table agreement over MIR string constants and resolved getters + key-type rule",
- "C19": "panic-freedom of the reader: panicking-callee scan + constructor-precondition classifier discharged by dominating Err guards + {v==0} abstraction at the constructor call",
- "C20": "{v==0} predicate abstraction at every construction site + unit check of field initialisers",
+ "C01": "MIR typestate dataflow over (Vec length, num_rows, num_cols) at every unwind / leak / return point of the shape writers; {v==0} predicate abstraction; symbolic raw-access bounds with induction-variable loop summaries; visibility / signature scan backed by compile_fail witnesses; structural clauses of the in-place algorithms selected through call-graph reachability",
+ "C02": "path-wise abstract evaluation of the loop-free accessor bodies over canonical polynomials and slice intervals, matched against layout lemmas whose hypotheses must be dominating branch facts; dominator-based guard analysis (unit, strictness, domination of uses and returns); unchecked-arithmetic rule; ROW/COL unit inference",
+ "C03": "layout-lemma matching of the window range and of every view literal (slice, extent, stride) by abstract evaluation over polynomials; {v==0} predicate abstraction with computed helper summaries; guard dominance incl. return domination; unit inference",
+ "C04": "layout-lemma matching with the view's own stride plus write-footprint confinement for every method of TooDeeViewMut that touches the backing slice; value-graph conformance of RowsMut / ColMut to the ideal strided cursor; visibility / impl-table scan with compile_fail witnesses; permutation-primitive rule; call-graph reachability selection",
+ "C05": "hidden-window typestate for raw moves (incl. move-then-hide and helper / closure call-site states); symbolic raw-access bounds, move order and adjacency; drain rules over the CFG (single-step, order, exhaustion before compaction, restorer coverage); who-may-call rule for duplicating primitives; raw-pointer comparison lint",
+ "C06": "guard dominance; {v==0} predicate abstraction; unwind-point typestate and symbolic raw-access bounds on insert_row / insert_col; rotate / append pairing; delegation check of push_*; unchecked-arithmetic rule on the capacity calls",
+ "C07": "guard dominance; delegation check of pop_*; leak / unwind typestate on remove_row / remove_col; drain literal as a region polynomial; restorer coverage and exhaustion clauses of the destructor; cursor conformance of the embedded Col",
+ "C08": "path-wise abstract evaluation of every Rows / RowsMut iterator method (value graph over polynomials and slice intervals, helpers inlined) against the ideal strided cursor, with concrete small-state witnesses for reports; semantic size_hint / len under the cursor invariant; classification of further overrides (direction family, chunking idioms); moved-out typestate; overflow-detection rule",
+ "C09": "as C08 for Col / ColMut, plus the unchecked-arithmetic rule on indexing, guard dominance and layout lemmas for col() / col_mut() / get_col_params",
+ "C10": "denotational abstract evaluation of FlattenExact's next / next_back / nth / nth_back / size_hint / len / count over interval models of the inner iterators with bounded fact saturation; direction rule for every override; IntoIterator -> cells() and fold / rfold chain shape; row-cursor conformance (C08)",
+ "C11": "MIR unwind-edge typestate dataflow with restorer-drop summaries, drop-flag tracking and helper / closure propagation; hidden-window typestate; comparator-before-write reachability clause of the sorts",
+ "C12": "leak typestate at the return of every drain-producing function (as if the destructor never runs); tail-drain value-graph rule; hidden-window typestate of the drain's own iterator; compile_fail witnesses for borrow exclusivity",
+ "C13": "guard dominance incl. ordered-swap, sorted-pair and nth().unwrap() idioms and return domination; abstract row-cursor model (L-NTH) for the provided swap / swap_rows / row_pair_mut; layout lemmas and exact two-row footprints for the overrides; unit inference; permutation-primitive rule; fill shape; call-graph reachability selection",
+ "C14": "size-guard dominance of every write; placement identities of copy_within as canonical polynomials; row-set clause; guard dominance (incl. over-strict endpoints) and unguarded-arithmetic rule; unit inference; {v==0} rule for chunk sizes; call-graph reachability selection",
+ "C15": "guard dominance and {zero, non-zero} exit analysis (R-NOSHIFT); induction-variable lockstep of the cycle-leader loop; flip shapes (paired cursor ends / mirrored index forms); unit inference; permutation-primitive rule; layout lemmas of the row getters; call-graph reachability selection",
+ "C16": "delegation check over resolved callees; sort skeleton rules (stability by reachability, comparator argument order, key line, all-rows application, dominance of writes by the side sort); guard dominance; unit inference; call-graph reachability selection",
+ "C17": "as C16 for columns, plus the address forms / footprints of every swap_rows implementation and the column cursor conformance",
+ "C18": "writer / reader table agreement over MIR string constants, resolved getters and derive provenance; key-type rule; panicking-callee scan of the reader; cells() conformance (C10)",
+ "C19": "panic-freedom of the reader: panicking-callee scan of every deserialisation-side body + constructor-precondition classifier discharged by dominating Err guards + {v==0} abstraction at the constructor call and at the accept sink",
+ "C20": "{v==0} predicate abstraction at every construction site; constructor-precondition classifier (K_ZERO / K_OVF / K_LEN) with return domination; unit check of field initialisers and constructor arguments; conversion shapes (whole-Vec moves, rows in order); structural decision of hand-written Clone / PartialEq / Hash",
 }
 NOTE = "Trusted: rustc nightly's MIR (mir-opt-level=0) as the meaning of the source; std contracts of the modelled callees; the role/unit table read off the API docs; pen-and-paper lemmas listed in the evidence. Decides necessary structural clauses only; declined clauses are listed in evidence coverage.declined."
 checks = []
